@@ -50,6 +50,9 @@ impl FaultFs {
     pub fn disarm(&self) {
         self.ctl.lock().unwrap().fail_at = 0;
     }
+    pub fn take_log(&self) -> Vec<String> {
+        std::mem::take(&mut self.ctl.lock().unwrap().log)
+    }
     pub fn failures(&self) -> usize {
         self.ctl.lock().unwrap().failures
     }
@@ -59,7 +62,7 @@ fn gate(ctl: &Arc<Mutex<Ctl>>, op: &str, path: &Path) -> Result<()> {
     let p = path.to_string_lossy().to_string();
     let cb = {
         let mut c = ctl.lock().unwrap();
-        if c.callback.is_some() && !c.callback_path.is_empty() && p.contains(&c.callback_path) && op != "create" {
+        if c.callback.is_some() && !c.callback_path.is_empty() && p.contains(&c.callback_path) && !op.starts_with("create") {
             c.callback.take()
         } else {
             None
@@ -149,7 +152,7 @@ impl FileSystem for FaultFs {
         self.inner.rename(from, to)
     }
     fn create_file(&self, path: &Path, append: bool) -> Result<Box<dyn RandomAccessFile>> {
-        gate(&self.ctl, "create", path)?;
+        gate(&self.ctl, if append { "create-append" } else { "create" }, path)?;
         let f = self.inner.create_file(path, append)?;
         Ok(Box::new(FFile { inner: f, path: path.to_path_buf(), ctl: Arc::clone(&self.ctl) }))
     }
